@@ -48,8 +48,22 @@ func roundTrip(r *rand.Rand, zero any, dir string, slack []int, tz string) M {
 		}
 		return res
 	}
+	rec["aliased"] = false
 	if bytes != nil {
 		rec["dec"] = dec(bytes)
+		// the decoded value shares no memory with the buffer it was decoded from: overwrite the buffer, look again
+		guard(func() {
+			in := append([]byte{}, bytes...)
+			out := reflect.New(t)
+			if err := codec.Unmarshal(in, out.Interface()); err != nil {
+				return
+			}
+			before := fmt.Sprint(projMsg(out.Elem()))
+			for i := range in {
+				in[i] = 0xee
+			}
+			rec["aliased"] = fmt.Sprint(projMsg(out.Elem())) != before
+		})
 		flipped := append([]byte{}, bytes...)
 		fl := []int{}
 		for _, pos := range slack { // 1-based positions
